@@ -725,7 +725,11 @@ func (s *sender) handleRcvdSegment(seg *segment) {
 			datalen := seg.logicalLen()
 
 			if datalen > ackLeft {
+				// Partial ACK of the segment: drop the acknowledged
+				// prefix and advance the sequence number with it, so a
+				// later retransmission labels the remaining bytes correctly.
 				seg.data.TrimFront(int(ackLeft))
+				seg.sequenceNumber.UpdateForward(ackLeft)
 				break
 			}
 
